@@ -1612,6 +1612,9 @@ namespace detail
         constexpr static const char* get_name() { return "<eof>"; }
     };
 
+    // value of rule::precedence when no explicit precedence was given with operator[]
+    constexpr int no_explicit_precedence = std::numeric_limits<int>::min();
+
     template<bool RequiresContext, typename F, typename L, typename...R>
     class rule
     {
@@ -1620,12 +1623,12 @@ namespace detail
         static const size_t n = sizeof...(R);
 
         constexpr rule(L l, std::tuple<R...> r) :
-            f(nullptr), l(l), r(r), precedence(0)
+            f(nullptr), l(l), r(r), precedence(no_explicit_precedence)
         {}
 
         template<typename F1>
         constexpr rule(F1&& f, L l, std::tuple<R...> r) :
-            f(std::move(f)), l(l), r(r), precedence(0)
+            f(std::move(f)), l(l), r(r), precedence(no_explicit_precedence)
         {}
 
         template<typename F1>
@@ -2713,7 +2716,7 @@ private:
 
     constexpr int calculate_rule_precedence(int precedence, size16_t rule_idx) const
     {
-        if (precedence != 0)
+        if (precedence != detail::no_explicit_precedence)
             return precedence;
         size16_t last_term_idx = gi.rule_last_terms[rule_idx];
         if (last_term_idx != uninitialized16)
